@@ -49,13 +49,13 @@ CLAIMED.update({
 })
 
 CLAIMED.update({
-    "C42": {"text": "Hook-list kernel (after the handshake): for lists of 0, 2 and 3 hooks with every accept/reject pattern and arbitrary error codes, EndpointHooksList::after_handshake returns the first rejecting hook's error code and reason (else Accept), consults hooks in installation order and none after the first rejection.",
-            "note": "PARTIAL: before_connect's identical loop did not finish under CBMC; the call sites in connect_with_opts / conn_from_noq_conn, the self-connect and empty-ALPN checks need a bound Endpoint / live connection and are by reading."},
+    "C42": {"text": "Hook-list kernel: for lists of 0, 2 and 3 hooks with every accept/reject pattern and arbitrary error codes, EndpointHooksList::before_connect accepts iff every hook accepts, and EndpointHooksList::after_handshake returns the first rejecting hook's error code and reason (else Accept); both consult hooks in installation order and none after the first rejection.",
+            "note": "PARTIAL: the call sites in connect_with_opts / conn_from_noq_conn, the self-connect and empty-ALPN checks need a bound Endpoint / live connection and are by reading."},
 })
 
 CLAIMED.update({
-    "C01": {"text": "Kernel only: the handshake signature verifier accepts exactly when the presented raw public key is 32 bytes forming a valid point, the signature is 64 bytes and the signature oracle accepts that (key, transcript, signature) - i.e. proof of possession is checked against the presented key; client certificates are accepted only without intermediates; raw public keys are required.",
-            "note": "PARTIAL: verify_server_cert (certificate must be the SPKI of the dialed id) and the TLS name encode/decode round trip do not finish under CBMC (str::split two-way searcher, format!); the TLS handshake, remote_id_from_noq_conn and connect_with_opts need live connections. A mutation of verify_server_cert or name::decode is NOT detected."},
+    "C01": {"text": "Kernel only: the server-certificate verifier accepts a presented raw public key exactly when it is, byte for byte, the Ed25519 SubjectPublicKeyInfo of the dialed endpoint id and no intermediates are sent - for every 44-byte certificate and every dialed id; the handshake signature verifier accepts exactly when the presented raw public key is 32 bytes forming a valid point, the signature is 64 bytes and the signature oracle accepts that (key, transcript, signature) - i.e. proof of possession is checked against the presented key; client certificates are accepted only without intermediates; raw public keys are required.",
+            "note": "PARTIAL: the TLS name encode/decode round trip does not finish under CBMC (str::split two-way searcher, format!), so name::decode is stubbed to return the dialed id; the TLS handshake, remote_id_from_noq_conn and connect_with_opts need live connections. A mutation of name::encode/decode or of the connect path is NOT detected."},
 })
 
 CLAIMED.update({
